@@ -288,7 +288,7 @@ impl FileSpec {
         let compressed_files =
             self.list_of_files(&InfixFilter::Equls(infix.to_string()), Some("gz"));
 
-        let mut restart_siblings = uncompressed_files
+        let restart_siblings = uncompressed_files
             .into_iter()
             .chain(compressed_files)
             .filter(|pb| {
@@ -322,21 +322,21 @@ impl FileSpec {
         // if collision would occur (new_path or compressed new_path exists already),
         // find highest restart and add 1, else continue without restart
         if new_path.exists() || new_path_with_gz.exists() || !restart_siblings.is_empty() {
-            let next_number = if restart_siblings.is_empty() {
-                0
-            } else {
-                restart_siblings.sort_unstable();
-                let new_path = restart_siblings.pop().unwrap(/*ok*/);
-                let file_stem_string = if self.o_suffix.is_some() {
-                    new_path
-                    .file_stem().unwrap(/*ok*/)
-                    .to_string_lossy().to_string()
-                } else {
-                    new_path.to_string_lossy().to_string()
-                };
-                let index = file_stem_string.find(".restart-").unwrap(/*ok*/);
-                file_stem_string[(index + 9)..(index + 13)].parse::<usize>().unwrap(/*ok*/) + 1
-            };
+            // find the highest restart number (ignore files where it cannot be read)
+            let next_number = restart_siblings
+                .iter()
+                .filter_map(|pb| {
+                    let file_name = pb.file_name()?.to_string_lossy().to_string();
+                    let index = file_name.find(".restart-")?;
+                    file_name[(index + 9)..]
+                        .chars()
+                        .take_while(char::is_ascii_digit)
+                        .collect::<String>()
+                        .parse::<usize>()
+                        .ok()
+                })
+                .max()
+                .map_or(0, |n| n + 1);
 
             infix.to_string().add(&format!(".restart-{next_number:04}"))
         } else {
